@@ -239,12 +239,13 @@ func genHead(r *Rand) *HeadIn {
 // Path 7: the error body of a node that rejects a sync committee submission.
 
 type ErrBodyIn struct {
-	Call     string   `json:"call"`           // messages | contributions
-	Server   string   `json:"server"`         // lighthouse | teku | other
-	Body     string   `json:"body"`           // nojson | badjson | failures
-	Variant  int      `json:"variant"`        // which text of that kind
-	Failures []string `json:"failures"`       // null | tolerated | real
-	Omit     bool     `json:"omit,omitempty"` // the failures list is absent (only with no failures)
+	Call     string   `json:"call"`                // messages | contributions
+	Server   string   `json:"server"`              // lighthouse | teku | other
+	Body     string   `json:"body"`                // nojson | badjson | failures
+	Variant  int      `json:"variant"`             // which text of that kind
+	Failures []string `json:"failures"`            // null | tolerated | real
+	Omit     bool     `json:"omit,omitempty"`      // the failures list is absent (only with no failures)
+	NullList bool     `json:"null_list,omitempty"` // the failures list is the JSON value null (only with no failures)
 	Trace    bool     `json:"trace_log,omitempty"`
 }
 
@@ -275,7 +276,7 @@ func errBodyText(in *ErrBodyIn) string {
 	prefix := []string{"POST failed with status 400: ", "failed to submit: ", ""}[in.Variant%3]
 	switch in.Body {
 	case "nojson":
-		return []string{"context deadline exceeded", "POST failed with status 503", "connection refused", "EOF"}[in.Variant%4]
+		return []string{"context deadline exceeded", "POST failed with status 503", "connection refused", "EOF", "POST failed with status 400: null", "POST failed with status 400: [null]"}[in.Variant%6]
 	case "badjson":
 		return prefix + []string{`{`, `{"code":400,"failures":"none"}`, `{"code":[],"failures":[]}`, `{"failures":[{"index":{},"message":"x"}]}`, `{"failures":{}}`, `{not json}`}[in.Variant%6]
 	}
@@ -291,6 +292,9 @@ func errBodyText(in *ErrBodyIn) string {
 	}
 	if in.Omit && len(in.Failures) == 0 {
 		return prefix + fmt.Sprintf(`{"code":%s,"message":"Service unavailable: syncing"}`, code)
+	}
+	if in.NullList && len(in.Failures) == 0 {
+		return prefix + fmt.Sprintf(`{"code":%s,"message":"error processing","failures":null}`, code)
 	}
 	ents := make([]string, len(in.Failures))
 	for i, f := range in.Failures {
@@ -370,6 +374,9 @@ func runErrBody(t *testing.T, in *ErrBodyIn) result {
 		if len(fs) == 0 {
 			res.nontrivial = true
 			res.counts = append(res.counts, "no-failures")
+			if in.NullList {
+				res.counts = append(res.counts, "failures-list-null")
+			}
 		}
 		body = App("BFailures", List(fs))
 	}
@@ -404,6 +411,7 @@ func genErrBody(r *Rand) *ErrBodyIn {
 			}
 		}
 		in.Omit = n == 0 && r.Bool()
+		in.NullList = n == 0 && !in.Omit && r.Bool()
 	}
 	return in
 }
